@@ -176,8 +176,9 @@ def gen_cases(rng, tier):
     for model in MODELS:
         for _ in range(nh):
             cases.append({"kind": "history", "model": model, "seed": rng.randrange(2**32), "n": 1 if model == "MG94HKY" else 4})
-        for _ in range(nc):
-            cases.append({"kind": "calc", "model": model, "seed": rng.randrange(2**32), "steps": (40 if model == "MG94HKY" else 200) if tier == "quick" else (80 if model == "MG94HKY" else 300)})
+        for ci in range(nc):
+            # with_undo is fixed per case (not drawn), so the 'without undo buffer' class is reached on every seed
+            cases.append({"kind": "calc", "model": model, "with_undo": ci != 1, "seed": rng.randrange(2**32), "steps": (40 if model == "MG94HKY" else 200) if tier == "quick" else (80 if model == "MG94HKY" else 300)})
         for _ in range(no):
             cases.append({"kind": "optimise", "model": model, "seed": rng.randrange(2**32)})
     return cases
@@ -443,7 +444,7 @@ def close(a, b, rtol=1e-9):
 # ----- H: calculator change vectors ----------------------------------------
 
 
-def run_calc(res, rng, model, steps):
+def run_calc(res, rng, model, steps, with_undo_fixed=None):
     bins = rng.choice([1, 1, 2]) if M.kind_of(model) == "nuc" else 1
     prob = base_problem(rng, model, bins=bins)
     try:
@@ -454,7 +455,7 @@ def run_calc(res, rng, model, steps):
             lf.set_param_rule(rng.choice(pars), is_independent=True)
         if M.mprob_kind(model) != "fixed-equal" and rng.random() < 0.3:
             lf.set_motif_probs(prob["mprobs"], is_constant=False)
-        with_undo = rng.random() < 0.85
+        with_undo = (rng.random() < 0.85) if with_undo_fixed is None else with_undo_fixed
         calc = lf.make_calculator(with_undo=with_undo)
     except Exception as e:  # noqa: BLE001
         res.evals += 1
@@ -624,7 +625,7 @@ def run_case(case):
         for _ in range(case["n"]):
             run_history(res, rng, case["model"])
     elif case["kind"] == "calc":
-        run_calc(res, rng, case["model"], case["steps"])
+        run_calc(res, rng, case["model"], case["steps"], case.get("with_undo"))
     elif case["kind"] == "optimise":
         run_optimise(res, rng, case["model"])
     return res
